@@ -98,7 +98,7 @@ def resume_splits(rep, rng, tier):
     dev = meshes.make_device(rng, holes=0, terminals=2, max_edge_length=1.0)
     dt = 2.0 ** -7
     N = 12
-    for screening in ([False, True] if tier == "thorough" else [False]):
+    for screening in [False, True]:
         cur = {"source": 1.0, "drain": -1.0}
         common_kw = dict(dt_init=dt, dt_max=dt, adaptive=False, save_every=1, include_screening=screening,
                          screening_tolerance=1e-3)
@@ -106,7 +106,7 @@ def resume_splits(rep, rng, tier):
             full, _ = runs.traced_solve(dev, runs.make_options(td, solve_time=N * dt, output_file=td + "/full.h5", **common_kw),
                                         A=0.4, currents=cur)
             ref = read_frames(full.path)
-            for n in range(1, N):
+            for n in (range(1, N) if (tier == "thorough" or not screening) else (3, 8)):
                 p1, _ = runs.traced_solve(dev, runs.make_options(td, solve_time=n * dt, output_file=f"{td}/a{n}.h5", **common_kw),
                                           A=0.4, currents=cur)
                 seed_hash = hashlib.sha256(b"".join(np.ascontiguousarray(np.asarray(getattr(p1.tdgl_data, nm))).tobytes()
